@@ -4,12 +4,15 @@
 #include <igris/util/hexascii.h>
 #include <igris/string/hexascii_string.h>
 #include <igris/util/base64.h>
-// `base64_charset` is `static`: reach it by including the translation unit
-#include <igris/util/base64.cpp>
+// Round 3b (fragility sweep): base64.cpp is no longer #included (the file-static `base64_charset` was named
+// here); it is compiled and linked as a library file (checks/C18.json repo_sources) and the table is read by
+// PROBING the encoder and the decoder (op `alpha`).  Only names of the public headers are used below.
 #include <climits>
+#include <new>
 #include <set>
 #include <stdexcept>
 #include <type_traits>
+#include <functional>
 #include <sys/wait.h>
 #include <fcntl.h>
 
@@ -27,6 +30,69 @@ namespace igris
 
 using namespace hv;
 typedef std::vector<uint8_t> bytes;
+
+// ---------------------------------------------------------------- optional names (round 3b)
+// access.h: HIHALF / LOHALF (functions) and the lane macros are helpers of the fixed-width routines.  A
+// library that renames or drops them must still build this harness: an ellipsis overload loses against any
+// real declaration and marks the name as absent; the lane macros are tested with #if defined.
+struct c18_absent {};
+#ifndef HIHALF
+static c18_absent HIHALF(...);
+#endif
+#ifndef LOHALF
+static c18_absent LOHALF(...);
+#endif
+#if defined(UINT16_HI) && defined(UINT16_LO) && defined(UINT32_HHI) && defined(UINT32_HLO) && defined(UINT32_LHI) && defined(UINT32_LLO) && \
+    defined(UINT64_HHHI) && defined(UINT64_HHLO) && defined(UINT64_HLHI) && defined(UINT64_HLLO) && defined(UINT64_LHHI) && \
+    defined(UINT64_LHLO) && defined(UINT64_LLHI) && defined(UINT64_LLLO)
+#define C18_HAVE_LANES 1
+#else
+#define C18_HAVE_LANES 0
+#endif
+
+// ---------------------------------------------------------------- allocation-failure injector (round 3b)
+// The replaced global operator new (it takes precedence over the sanitizer's; malloc/free below are still
+// ASan's, so red zones and use-after-free checks stay) can make the k-th allocation inside a window fail with
+// std::bad_alloc and records which blocks allocated inside the window are still alive.
+namespace oomi
+{
+    static bool track = false;
+    static long countdown = -1; // >= 0: that many allocations succeed, the next one throws
+    static long allocs = 0;
+    static void *blocks[512];
+    static int nblocks = 0;
+    static bool overflow = false;
+    static void *alloc(size_t n)
+    {
+        if (track)
+        {
+            if (countdown == 0) { countdown = -1; throw std::bad_alloc(); }
+            if (countdown > 0) countdown--;
+            allocs++;
+        }
+        void *p = malloc(n ? n : 1);
+        if (!p) throw std::bad_alloc();
+        if (track) { if (nblocks < 512) blocks[nblocks++] = p; else overflow = true; }
+        return p;
+    }
+    static void release(void *p)
+    {
+        if (!p) return;
+        for (int i = 0; i < nblocks; i++)
+            if (blocks[i] == p) { blocks[i] = blocks[--nblocks]; break; }
+        free(p);
+    }
+}
+void *operator new(size_t n) { return oomi::alloc(n); }
+void *operator new[](size_t n) { return oomi::alloc(n); }
+void *operator new(size_t n, const std::nothrow_t &) noexcept { try { return oomi::alloc(n); } catch (...) { return nullptr; } }
+void *operator new[](size_t n, const std::nothrow_t &) noexcept { try { return oomi::alloc(n); } catch (...) { return nullptr; } }
+void operator delete(void *p) noexcept { oomi::release(p); }
+void operator delete[](void *p) noexcept { oomi::release(p); }
+void operator delete(void *p, size_t) noexcept { oomi::release(p); }
+void operator delete[](void *p, size_t) noexcept { oomi::release(p); }
+void operator delete(void *p, const std::nothrow_t &) noexcept { oomi::release(p); }
+void operator delete[](void *p, const std::nothrow_t &) noexcept { oomi::release(p); }
 
 // ---------------------------------------------------------------- references
 // RFC 4648 written as bit-string regrouping (no shifts/masks shared with igris)
@@ -126,8 +192,7 @@ template <class T> static std::string tw()
 {
     return std::string(std::is_signed<T>::value ? "s" : "u") + std::to_string(sizeof(T));
 }
-template <class R, class A, class B, class C> static B arg2_of(R (*)(A, B, C));
-template <class R, class A, class B> static B arg2_of(R (*)(A, B));
+template <class R, class A, class B, class... C> static B arg2_of(R (*)(A, B, C...));
 template <class R, class... A> static R ret_of(R (*)(A...));
 // the 48 bytes whose sextets are 0,1,...,63: encoding them prints the alphabet the build uses
 static bytes sextet_ramp()
@@ -190,6 +255,13 @@ template <class T> static void fixed_from(const std::string &arg, out &o, void (
             o.fail("uintN_to_hex(hex_to_uintN(t)) = '" + text2 + "' is not upper(t)");
         o.tag("lowerhex");
     }
+    if ((int)tb.size() > W)
+    {
+        // a longer buffer: nothing behind the 2*sizeof characters is used
+        exact_buf tp(bytes(tb.begin(), tb.begin() + W));
+        if (from_hex((const char *)tp.p) != v) o.fail("hex_to_uintN reads more than 2*sizeof characters");
+        o.tag("sparetext");
+    }
     if ((int)tb.size() == W)
     {
         // case-insensitive on every text, hex digits or not
@@ -200,13 +272,20 @@ template <class T> static void fixed_from(const std::string &arg, out &o, void (
 }
 
 static void run_premain(const std::vector<std::string> &w, out &o);
+static out run_isolated(const char *line);
+static void run_oom(const std::vector<std::string> &w, out &o);
 
 static void run_op(const std::vector<std::string> &w, const std::string &, out &o)
 {
     const std::string &op = w[0];
-    if (op == "premain")
+    if (op == "premain" || op == "premainD" || op == "premainG")
     {
         run_premain(w, o);
+        return;
+    }
+    if (op == "oom" && w.size() == 3)
+    {
+        run_oom(w, o);
         return;
     }
     if (op == "reset")
@@ -216,9 +295,26 @@ static void run_op(const std::vector<std::string> &w, const std::string &, out &
     }
     if (op == "alpha")
     {
-        o.result = hex((const uint8_t *)igris::base64_charset, 65);
-        if (std::string(igris::base64_charset) != std::string(STD_ALPHA) + "=")
-            o.fail("base64_charset is not the RFC 4648 alphabet followed by '='");
+        // the table the build uses, read by probing (no internal name): letter k = what the encoder prints for
+        // the sextet k (48 bytes whose sextets are 0..63), the 65th entry = the padding character the encoder
+        // appends to a one-byte input; the decoder's reverse mapping: letter k in front of "AAA" must decode to
+        // the byte 4k
+        bytes m = sextet_ramp();
+        exact_buf in(m), one(bytes{0});
+        std::string a = igris::base64_encode(in.p, m.size()), pad = igris::base64_encode(one.p, 1);
+        std::string table = a + (pad.size() == 4 ? pad.substr(3) : std::string());
+        o.result = hex(table);
+        if (table != std::string(STD_ALPHA) + "=")
+            o.fail("the alphabet the encoder prints is not the RFC 4648 alphabet followed by '='");
+        for (size_t k = 0; k < a.size() && k < 64; k++)
+        {
+            std::string d = igris::base64_decode(std::string(1, a[k]) + "AAA");
+            if (d.size() != 3 || (uint8_t)d[0] != 4 * k || d[1] || d[2])
+            {
+                o.fail("base64_decode does not map the letter '" + std::string(1, a[k]) + "' to the sextet " + std::to_string(k));
+                break;
+            }
+        }
         o.tag("alpha");
         return;
     }
@@ -241,19 +337,21 @@ static void run_op(const std::vector<std::string> &w, const std::string &, out &
     }
     if (op == "widths")
     {
-        std::string (*henc_p)(const uint8_t *, size_t) = igris::hexascii_encode;
-        std::string (*benc_p)(const uint8_t *, size_t) = igris::base64_encode;
-        std::string (*buenc_p)(const uint8_t *, size_t) = igris::base64url_encode;
-        o.result = "int:" + tw<int>() + " size_t:" + tw<size_t>() + " char:" + tw<char>() +
-                   " hexascii_encode.size:" + tw<decltype(arg2_of(&hexascii_encode))>() +
-                   " hexascii_decode.size:" + tw<decltype(arg2_of(&hexascii_decode))>() +
-                   " hex2half:" + tw<decltype(hex2half('0'))>() + " half2hex:" + tw<decltype(half2hex(0))>() +
-                   " hex2byte:" + tw<decltype(hex2byte('0', '0'))>() + " HIHALF:" + tw<decltype(HIHALF(0))>() +
-                   " hex_to_uint8:" + tw<decltype(hex_to_uint8(""))>() + " hex_to_uint16:" + tw<decltype(hex_to_uint16(""))>() +
-                   " hex_to_uint32:" + tw<decltype(hex_to_uint32(""))>() + " hex_to_uint64:" + tw<decltype(hex_to_uint64(""))>() +
-                   " igris.hexascii_encode.size:" + tw<decltype(arg2_of(henc_p))>() +
-                   " base64_encode.size:" + tw<decltype(arg2_of(benc_p))>() + " base64url_encode.size:" + tw<decltype(arg2_of(buenc_p))>() +
-                   " string.size:" + tw<std::string::size_type>();
+        // compared: the platform types the model's arithmetic is written for.  The types the library DECLARES
+        // (size parameters, helper return types) are not fixed by the property: they are reported as tags; what
+        // they mean for the behaviour is judged by ops (negative sizes: hdecm / hdeci; > 65535: hlong / blong)
+        o.result = "int:" + tw<int>() + " size_t:" + tw<size_t>() + " char:" + tw<char>() + " string.size:" + tw<std::string::size_type>();
+        auto t = [&](const char *name, const std::string &v) { o.tag((std::string(name) + "=" + v).c_str()); };
+        t("hexascii_encode.size", tw<decltype(arg2_of(&hexascii_encode))>());
+        t("hexascii_decode.size", tw<decltype(arg2_of(&hexascii_decode))>());
+        t("hex2half", tw<decltype(hex2half('0'))>());
+        t("half2hex", tw<decltype(half2hex(0))>());
+        t("hex2byte", tw<decltype(hex2byte('0', '0'))>());
+        t("HIHALF", tw<decltype(HIHALF((uint8_t)0))>());
+        t("hex_to_uint8", tw<decltype(hex_to_uint8(""))>());
+        t("hex_to_uint16", tw<decltype(hex_to_uint16(""))>());
+        t("hex_to_uint32", tw<decltype(hex_to_uint32(""))>());
+        t("hex_to_uint64", tw<decltype(hex_to_uint64(""))>());
         o.tag("widths");
         return;
     }
@@ -261,6 +359,7 @@ static void run_op(const std::vector<std::string> &w, const std::string &, out &
     {
         // which branch of access.h was compiled: the byte offset every lane macro addresses
         uint16_t a = 0x0102; uint32_t b = 0x01020304u; uint64_t c = 0x0102030405060708ull;
+#if C18_HAVE_LANES
         auto off = [](void *base, uint8_t &r) { return std::to_string((int)(&r - (uint8_t *)base)); };
         o.result = off(&a, UINT16_HI(a)) + " " + off(&a, UINT16_LO(a)) + " " +
                    off(&b, UINT32_HHI(b)) + " " + off(&b, UINT32_HLO(b)) + " " + off(&b, UINT32_LHI(b)) + " " + off(&b, UINT32_LLO(b)) + " " +
@@ -271,6 +370,15 @@ static void run_op(const std::vector<std::string> &w, const std::string &, out &
         if (UINT32_HHI(b) != 1 || UINT32_HLO(b) != 2 || UINT32_LHI(b) != 3 || UINT32_LLO(b) != 4) o.fail("UINT32 lanes are not the bytes of the value, most significant first");
         if (UINT64_HHHI(c) != 1 || UINT64_HHLO(c) != 2 || UINT64_HLHI(c) != 3 || UINT64_HLLO(c) != 4 || UINT64_LHHI(c) != 5 ||
             UINT64_LHLO(c) != 6 || UINT64_LLHI(c) != 7 || UINT64_LLLO(c) != 8) o.fail("UINT64 lanes are not the bytes of the value, most significant first");
+#else
+        // the lane macros are gone / renamed: where the platform keeps the byte of significance k (the
+        // fixed-width routines themselves are judged by u16..u64 / x16..x64)
+        auto where = [](const void *obj, size_t n, uint8_t v) { for (size_t i = 0; i < n; i++) if (((const uint8_t *)obj)[i] == v) return std::to_string(i); return std::string("?"); };
+        o.result = where(&a, 2, 1) + " " + where(&a, 2, 2);
+        for (uint8_t v = 1; v <= 4; v++) o.result += " " + where(&b, 4, v);
+        for (uint8_t v = 1; v <= 8; v++) o.result += " " + where(&c, 8, v);
+        o.tag("lanes-absent");
+#endif
         o.tag("lanes");
         return;
     }
@@ -294,7 +402,8 @@ static void run_op(const std::vector<std::string> &w, const std::string &, out &
         // in place: out == indata
         exact_buf both(byt(c_text));
         hexascii_decode(both.p, (int)(2 * n), both.p);
-        if (memcmp(both.p, m.data(), n) != 0 || memcmp(both.p + n, c_text.data() + n, n) != 0) o.fail("hlong: in-place decode");
+        // (round 3b: not a clause of the property - reported as a tag, see op hdeci)
+        o.tag(memcmp(both.p, m.data(), n) == 0 && memcmp(both.p + n, c_text.data() + n, n) == 0 ? "inplace-same" : "inplace-differs");
         o.tag("long");
         if (n >= 300 * 1024) o.tag("long300k");
         return;
@@ -328,7 +437,14 @@ static void run_op(const std::vector<std::string> &w, const std::string &, out &
     {
         // access.h HIHALF / LOHALF on every byte
         uint8_t b = (uint8_t)strtoul(arg.c_str(), 0, 16);
-        uint8_t h = HIHALF(b), l = LOHALF(b);
+        uint8_t h = 0, l = 0;
+        auto halves = [&](auto bb) {
+            if constexpr (std::is_same<decltype(HIHALF(bb)), c18_absent>::value) { h = (uint8_t)(bb / 16); o.tag("hihalf-absent"); }
+            else h = HIHALF(bb);
+            if constexpr (std::is_same<decltype(LOHALF(bb)), c18_absent>::value) { l = (uint8_t)(bb % 16); o.tag("lohalf-absent"); }
+            else l = LOHALF(bb);
+        };
+        halves(b);
         o.result = hexn(h, 2) + " " + hexn(l, 2);
         if (h != b / 16 || l != b % 16) o.fail("HIHALF/LOHALF are not b/16, b%16");
         if (half2hex(h) != HEXA[b / 16] || half2hex(l) != HEXA[b % 16]) o.fail("half2hex(HIHALF/LOHALF) is not the hex digit");
@@ -391,19 +507,29 @@ static void run_op(const std::vector<std::string> &w, const std::string &, out &
     }
     if (op == "hdeci" && w.size() == 3)
     {
-        // in place: hexascii_decode(buf, size, buf).  The pair is read before its byte is stored and the
-        // store offset never passes the read offset, so the API allows it; result = the whole buffer afterwards
+        // Round 3b correction.  The op used to ASSERT in-place decoding (hexascii_decode(buf, size, buf)): neither the
+        // property nor the header nor any caller in the repository promises that (the API takes two unrelated
+        // pointers), and a decoder that fills `out` from the end is correct for separate buffers.  The compared
+        // result is now built from a decode into a SEPARATE exactly sized buffer: the size/2 decoded bytes followed
+        // by the untouched rest of the text (what the model's in-place form yields, theorem hexDecodeInPlaceM_eq);
+        // what the build does when out == indata is reported as a tag only.
         int size = atoi(w[1].c_str());
         bytes t = unhex(w[2]);
-        exact_buf buf(t);
-        hexascii_decode(buf.p, size, buf.p);
-        o.result = hex(buf.vec());
         size_t cnt = size <= 1 ? 0 : (size_t)(size / 2);
         exact_buf in(t), sep(cnt);
         hexascii_decode(in.p, size, sep.p);
-        if (memcmp(buf.p, sep.p, cnt) != 0) o.fail("in-place hexascii_decode != decode into a separate buffer");
-        for (size_t k = cnt; k < t.size(); k++)
-            if (buf.p[k] != t[k]) { o.fail("in-place hexascii_decode changed byte " + std::to_string(k) + " behind the result"); break; }
+        bytes whole(sep.p, sep.p + cnt);
+        if (cnt < t.size()) whole.insert(whole.end(), t.begin() + (long)cnt, t.end());
+        o.result = hex(whole);
+        if (in.vec() != t) o.fail("hexascii_decode changed its input");
+        if (size > 0 && (size_t)size <= t.size())
+        {
+            std::string pre = str(t).substr(0, (size_t)size);
+            if (only(pre, HEXANY) && sep.vec() != ref_unhex_anycase(pre)) o.fail("hexascii_decode(size) != reference parse of the first size characters");
+        }
+        exact_buf buf(t);
+        hexascii_decode(buf.p, size, buf.p);
+        o.tag(buf.vec() == whole ? "inplace-same" : "inplace-differs");
         o.tag("inplace");
         if (size > 0 && size % 2) o.tag("oddsize");
         return;
@@ -450,11 +576,9 @@ static void run_op(const std::vector<std::string> &w, const std::string &, out &
         if (cap > cnt) o.tag("sparecap");
         return;
     }
-    if (op == "hthrow")
+    if (op == "hthrow_raw")
     {
-        // ret.resize(size * 2) is the only call whose argument can exceed
-        // max_size(): std::length_error leaves the function before a byte of
-        // the (one byte long) buffer is read
+        // (inner call of op hthrow, executed in a forked child)
         size_t n = (size_t)strtoull(arg.c_str(), 0, 16);
         exact_buf one((size_t)1);
         std::string r = "returns";
@@ -463,7 +587,21 @@ static void run_op(const std::vector<std::string> &w, const std::string &, out &
             (void)igris::hexascii_encode(one.p, n);
         }
         catch (const std::length_error &) { r = "length_error"; }
+        catch (const std::bad_alloc &) { r = "bad_alloc"; }
+        catch (...) { r = "other_exception"; }
         o.result = r;
+        return;
+    }
+    if (op == "hthrow")
+    {
+        // Round 3b correction.  igris::hexascii_encode(p, n) with n = 2^62.. on a ONE-byte buffer breaks the
+        // routine's precondition (n bytes readable): the property fixes nothing here.  The current code leaves
+        // through std::length_error of ret.resize(size * 2) before it reads a byte (model: hexEncodeStr_throws_iff);
+        // an implementation that grows the string while it reads would walk off the buffer instead - equally
+        // allowed.  So the call runs in a forked child and its outcome is a TAG; the compared result is constant.
+        out c = run_isolated(("hthrow_raw " + arg).c_str());
+        o.result = "called";
+        o.tag(c.result.compare(0, 5, "CRASH") == 0 ? "outcome=crash" : ("outcome=" + c.result).c_str());
         o.tag("throws");
         return;
     }
@@ -539,6 +677,15 @@ static void run_op(const std::vector<std::string> &w, const std::string &, out &
         if (!m.empty()) o.tag("henc");
         for (uint8_t x : m) if (x >= 0x80) { o.tag("highbit"); break; }
         if (c_text.find_first_of("ABCDEF") != std::string::npos) o.tag("letters");
+        {
+            // round 3b: in-place ENCODING (out == indata, data at the front of a 2n-byte buffer) is not promised by
+            // anything (the present loop stores two characters per byte read and overruns its own input for
+            // n >= 2); what the build does is a tag
+            exact_buf both(2 * m.size());
+            if (!m.empty()) memcpy(both.p, m.data(), m.size());
+            hexascii_encode(both.p, (int)m.size(), both.p);
+            o.tag(std::string((char *)both.p, 2 * m.size()) == ref ? "enc-inplace-same" : "enc-inplace-differs");
+        }
     }
     else if (op == "hdec")
     {
@@ -667,6 +814,9 @@ static const char *const PREMAIN_BATTERY[] = {
     "budec 2d5f383d", "budec 2b2f383d", "budec 41413d3d", "budec 5a6d39765967",
     "reuse 00017f80ff3efb fbefbe01020304", "reuse 666f6f 626172",
     "hlong 1000 7 3", "blong std 1000 7 3", "blong url 1001 13 250", "blong std 1001 251 128", "blong url 1002 5 0",
+    // round 3b: allocation failures injected before main() too
+    "oom hencp 00017f80ff3efb00017f80ff3efb00017f80ff3efb", "oom bdec 5a6d3976596d46795a6d3976596d46795a6d3976596d4679",
+    "oom budec 2d5f38412d5f38412d5f38412d5f38412d5f3841", "oom bencs 666f6f626172666f6f626172666f6f626172",
 };
 static const size_t PREMAIN_N = sizeof PREMAIN_BATTERY / sizeof PREMAIN_BATTERY[0];
 
@@ -756,7 +906,16 @@ struct premain_battery
         for (size_t k = 0; k < PREMAIN_N; k++) res.push_back(run_isolated(PREMAIN_BATTERY[k]));
     }
 };
+// Three positions in the initialisation order (round 3b):
+//   premain   priority 101: before every default-priority initialiser of any translation unit
+//   premainD  priority 65535 (the lowest explicit one): after every object with a smaller priority number -
+//             where a library that "fixes" an order problem with init_priority(N) has its objects built
+//   premainG  a plain global defined at the END of this translation unit: after all of the harness's own
+//             initialisers, still in front of the library files (they are linked behind the harness)
+// and main() itself, the fourth position, after everything.
 __attribute__((init_priority(101))) static premain_battery premain_results;
+__attribute__((init_priority(65535))) static premain_battery premain_results_d;
+extern premain_battery premain_results_g;
 
 static void run_premain(const std::vector<std::string> &w, out &o)
 {
@@ -768,19 +927,101 @@ static void run_premain(const std::vector<std::string> &w, out &o)
         o.result = "bad-op";
         return;
     }
-    if (premain_results.res.size() != PREMAIN_N) { o.result = "bad-op"; return; }
-    const out &pre = premain_results.res[k];
+    const premain_battery &bat = w[0] == "premainD" ? premain_results_d : w[0] == "premainG" ? premain_results_g : premain_results;
+    if (bat.res.size() != PREMAIN_N) { o.result = "bad-op"; return; }
+    const out &pre = bat.res[k];
     o.result = pre.result;
     o.tags = pre.tags;
     o.tag("premain");
-    if (!premain_results.before_main) o.fail("harness error: the battery did not run before main()");
-    if (!premain_results.before_default_init) o.fail("harness error: the battery ran after the default-priority initialisers of this translation unit");
+    if (!bat.before_main) o.fail("harness error: the battery did not run before main()");
+    if (w[0] == "premain" && !bat.before_default_init) o.fail("harness error: the battery ran after the default-priority initialisers of this translation unit");
+    if (w[0] == "premainG" && bat.before_default_init) o.fail("harness error: the last global of the translation unit was constructed before the first");
+    if (w[0] != "premain") o.tag(w[0].c_str());
     if (pre.oracle != "ok") o.fail("called before main(): " + pre.oracle);
     out now;
     run_op(std::vector<std::string>(w.begin() + 2, w.end()), inner, now);
     if (now.result != pre.result)
         o.fail("'" + inner + "' gives " + pre.result.substr(0, 80) + " when called before main() (from a global constructor) and " + now.result.substr(0, 80) + " when called from main(): the routine depends on a dynamic initialiser");
     if (now.oracle != "ok") o.fail("called from main(): " + now.oracle);
+}
+
+// ---------------------------------------------------------------- allocation failures (round 3b)
+// `oom <fn> <input>`: the routine is called once undisturbed (N allocations counted), then once for every
+// k < N with its k-th allocation failing, then once more undisturbed.  Oracle: a failed allocation leaves the
+// routine as std::bad_alloc (no other exception, no abort), every block allocated inside the call is released
+// again (the cleanup edges of the local std::string objects), and the routine still gives the right answer
+// afterwards.  How many allocations a routine makes is not fixed by the property: N is a tag.
+struct oom_run { int outcome; std::string value; int leaked; long allocs; };
+template <class F> static oom_run with_failure(long k, F call)
+{
+    oom_run R{0, std::string(), 0, 0};
+    oomi::nblocks = 0; oomi::overflow = false; oomi::allocs = 0;
+    {
+        std::string r;
+        oomi::countdown = k;
+        oomi::track = true;
+        try { r = call(); R.outcome = 0; }
+        catch (const std::bad_alloc &) { R.outcome = 1; }
+        catch (...) { R.outcome = 2; }
+        oomi::track = false;
+        oomi::countdown = -1;
+        R.value = r;
+    }
+    R.leaked = oomi::overflow ? -1 : oomi::nblocks;
+    R.allocs = oomi::allocs;
+    oomi::nblocks = 0;
+    return R;
+}
+static void run_oom(const std::vector<std::string> &w, out &o)
+{
+    const std::string &fn = w[1];
+    bytes x = unhex(w[2]);
+    exact_buf in(x);
+    const std::string sx = str(x);
+    const igris::buffer bx((const void *)in.p, x.size());
+    std::string (*sdec)(std::string const &) = igris::hexascii_decode;
+    std::string (*bufdec)(igris::buffer const &) = igris::hexascii_decode;
+    std::function<std::string()> call;
+    std::string want;
+    bool have_want = true;
+    if (fn == "hencp") { call = [&] { return igris::hexascii_encode(in.p, x.size()); }; want = ref_hex(x); }
+    else if (fn == "hencs") { call = [&] { return igris::hexascii_encode(sx); }; want = ref_hex(x); }
+    else if (fn == "hencb") { call = [&] { return igris::hexascii_encode(bx); }; want = ref_hex(x); }
+    else if (fn == "hdecs" && sdec) { call = [&] { return sdec(sx); }; have_want = only(sx, HEXANY); want = str(ref_unhex_anycase(sx)); }
+    else if (fn == "hdecb" && bufdec) { call = [&] { return bufdec(bx); }; have_want = only(sx, HEXANY); want = str(ref_unhex_anycase(sx)); }
+    else if (fn == "bencp") { call = [&] { return igris::base64_encode(in.p, x.size()); }; want = ref_b64_encode(x, STD_ALPHA); }
+    else if (fn == "bencs") { call = [&] { return igris::base64_encode(sx); }; want = ref_b64_encode(x, STD_ALPHA); }
+    else if (fn == "buencp") { call = [&] { return igris::base64url_encode(in.p, x.size()); }; want = ref_b64_encode(x, URL_ALPHA); }
+    else if (fn == "buencs") { call = [&] { return igris::base64url_encode(sx); }; want = ref_b64_encode(x, URL_ALPHA); }
+    else if (fn == "bdec") { call = [&] { return igris::base64_decode(sx); }; want = str(ref_b64_decode(sx, STD_ALPHA)); }
+    else if (fn == "budec")
+    {
+        call = [&] { return igris::base64url_decode(sx); };
+        std::string tt = sx;
+        for (char &c : tt) { if (c == '-') c = '+'; if (c == '_') c = '/'; }
+        want = str(ref_b64_decode(tt, STD_ALPHA));
+    }
+    else { o.result = "bad-op"; return; }
+    oom_run first = with_failure(-1, call);
+    o.result = hex(first.value);
+    if (first.outcome != 0) o.fail("oom " + fn + ": the undisturbed call threw");
+    if (have_want && first.value != want) o.fail("oom " + fn + ": the undisturbed call differs from the reference");
+    if (first.leaked) o.fail("oom " + fn + ": the undisturbed call left " + std::to_string(first.leaked) + " block(s) allocated");
+    long N = first.allocs, thrown = 0;
+    for (long k = 0; k < N && k < 64; k++)
+    {
+        oom_run r = with_failure(k, call);
+        std::string at = "oom " + fn + ": allocation " + std::to_string(k + 1) + " of " + std::to_string(N) + " fails: ";
+        if (r.outcome == 2) o.fail(at + "the routine left through an exception other than std::bad_alloc");
+        if (r.outcome == 0 && r.value != first.value) o.fail(at + "the routine returned a different answer (" + hex(r.value).substr(0, 60) + ")");
+        if (r.leaked) o.fail(at + std::to_string(r.leaked) + " block(s) allocated inside the call were not released (leak on the exception path)");
+        if (r.outcome == 1) thrown++;
+    }
+    oom_run last = with_failure(-1, call);
+    if (last.outcome != 0 || last.value != first.value) o.fail("oom " + fn + ": after the failed calls the routine gives a different answer");
+    o.tag("oom");
+    o.tag(("allocs=" + std::to_string(N)).c_str());
+    if (thrown) o.tag("bad_alloc");
 }
 
 // ---------------------------------------------------------------- gen
@@ -826,7 +1067,10 @@ static std::string rnd_text(rng &r, size_t n)
 static void emit(const char *op, const std::string &payload) { printf("%s %s\n", op, hex(payload).c_str()); }
 static void emit(const char *op, const bytes &payload) { printf("%s %s\n", op, hex(payload).c_str()); }
 
-static void gen_round3(rng &r, bool th)
+// Round 3b (quick-tier time): the two generator functions only print op lines and never call igris; compiled at
+// -O0 and without sanitizer instrumentation they cost 1 s instead of 18 s of g++ time (31 s -> 13 s user for this file)
+#define C18_GEN_ONLY __attribute__((optimize("O0"), no_sanitize("address", "undefined")))
+C18_GEN_ONLY static void gen_round3(rng &r, bool th)
 {
     // (0) round 3: what the build contains (both alphabets as printed by the encoders, type widths, the
     // compiled branch of access.h), the pre-main battery, HIHALF/LOHALF on every byte
@@ -834,6 +1078,32 @@ static void gen_round3(rng &r, bool th)
     puts("widths");
     puts("lanes");
     for (size_t k = 0; k < PREMAIN_N; k++) printf("premain %zu %s\n", k, PREMAIN_BATTERY[k]);
+    for (size_t k = 0; k < PREMAIN_N; k++) printf("premainD %zu %s\n", k, PREMAIN_BATTERY[k]);
+    for (size_t k = 0; k < PREMAIN_N; k++) printf("premainG %zu %s\n", k, PREMAIN_BATTERY[k]);
+    // round 3b: allocation failure injected into every routine that returns a std::string, at every allocation it
+    // makes; lengths around the small-string limit (15/16) and long enough for several growth steps
+    for (size_t len : {0u, 1u, 7u, 8u, 11u, 12u, 15u, 16u, 17u, 23u, 24u, 31u, 32u, 33u, 47u, 48u, 64u, 100u, 255u, 256u, 1000u})
+    {
+        if (!th && len > 300) continue;
+        for (int rep = 0; rep < (th ? 4 : 1); rep++)
+        {
+            bytes m = rnd_bytes(r, len);
+            for (const char *fn : {"hencp", "hencs", "hencb", "bencp", "bencs", "buencp", "buencs"}) printf("oom %s %s\n", fn, m.empty() ? "-" : hex(m).c_str());
+            std::string ht = rep % 2 ? rnd_text(r, len) : rnd_any_hex(r, len, 50);
+            printf("oom hdecs %s\n", ht.empty() ? "-" : hex(ht).c_str());
+            printf("oom hdecb %s\n", ht.empty() ? "-" : hex(ht).c_str());
+            std::string e = ref_b64_encode(m, STD_ALPHA), u = ref_b64_encode(m, URL_ALPHA);
+            if (rep % 2 && !e.empty()) e.insert(r.below(e.size() + 1), " ");
+            printf("oom bdec %s\n", e.empty() ? "-" : hex(e).c_str());
+            printf("oom budec %s\n", u.empty() ? "-" : hex(u).c_str());
+        }
+    }
+    // fixed-width parsers on a text LONGER than 2*sizeof characters: only the first 2*sizeof are read
+    for (int i = 0; i < (th ? 200 : 20); i++)
+    {
+        emit("x8", rnd_any_hex(r, 2 + (size_t)r.range(1, 4), 50)); emit("x16", rnd_any_hex(r, 4 + (size_t)r.range(1, 4), 50));
+        emit("x32", rnd_any_hex(r, 8 + (size_t)r.range(1, 4), 50)); emit("x64", rnd_text(r, 16 + (size_t)r.range(1, 4)));
+    }
     for (unsigned b = 0; b < 256; b++) printf("nib %02x\n", b);
     // base64: EVERY length 0..64 x byte patterns data[i] = a*i + b (ramps through all 256 values, constant
     // strings, descending ramps): every byte value at every position class mod 3, every padding class
@@ -890,7 +1160,7 @@ static void gen_round3(rng &r, bool th)
     }
 }
 
-static void gen(rng &r, const std::string &tier)
+C18_GEN_ONLY static void gen(rng &r, const std::string &tier)
 {
     bool th = tier == "thorough";
     puts("alpha");
@@ -1110,3 +1380,6 @@ int main(int argc, char **argv)
     main_entered = true;
     return main_(argc, argv, gen, run_op);
 }
+
+// the LAST namespace-scope object of this translation unit (see premain_battery above)
+premain_battery premain_results_g;
